@@ -81,8 +81,17 @@ def _import_logwriter():
     return lw
 
 
+LW_THREADS = []  # threads the module under test created during the current execution
+
+
+class _RecordedThread(thr.CoopThread):
+    def __init__(self, *a, **kw):
+        thr.CoopThread.__init__(self, *a, **kw)
+        LW_THREADS.append(self)
+
+
 class _ThreadingShim(object):
-    Thread = thr.CoopThread
+    Thread = _RecordedThread
 
     def __getattr__(self, name):
         return getattr(_threading, name)
@@ -188,6 +197,7 @@ def run_two_writers(h, bound, shard, lines):
 
     def setup(s):
         world.fresh()
+        del LW_THREADS[:]
         lw = fresh_logwriter()
         eliot.add_destinations(lambda m: None)
         got = {"A": [], "B": []}
@@ -201,8 +211,9 @@ def run_two_writers(h, bound, shard, lines):
 
             return d
 
-        wa = lw.ThreadedWriter(dest("A"), Reactor())
-        wb = lw.ThreadedWriter(dest("B"), Reactor())
+        with thr.cooperative_primitives():
+            wa = lw.ThreadedWriter(dest("A"), Reactor())
+            wb = lw.ThreadedWriter(dest("B"), Reactor())
 
         def producer(w, name, ids):
             def f():
@@ -238,7 +249,7 @@ def run_two_writers(h, bound, shard, lines):
         def observe(s):
             return {"got": {k: list(v) for k, v in got.items()}, "offered": {k: list(v) for k, v in offered.items()},
                     "stops": list(stops), "callers": sorted(callers),
-                    "alive": [w._thread.is_alive() if w._thread is not None else None for w in (wa, wb)]}
+                    "alive": [t.is_alive() for t in LW_THREADS]}
 
         return [("M", main)], observe
 
@@ -295,6 +306,7 @@ def run_harness(hi, bound, shard, lines=True):
 
     def setup(s):
         world.fresh()
+        del LW_THREADS[:]
         lw = fresh_logwriter()
         eliot.add_destinations(lambda m: None)  # leave buffering mode
         written = []  # (msg id, thread ident)
@@ -311,7 +323,8 @@ def run_harness(hi, bound, shard, lines=True):
             if i in h["mask"]:
                 raise (DestBoomNoText() if h.get("exc") == "no-text" else DestBoom("boom"))
 
-        w = lw.ThreadedWriter(dest, Reactor())
+        with thr.cooperative_primitives():
+            w = lw.ThreadedWriter(dest, Reactor())
 
         def offer(mid):
             if h["via"] == "log":
@@ -368,8 +381,7 @@ def run_harness(hi, bound, shard, lines=True):
                 "offered": list(offered),
                 "events": events,
                 "idents": dict(idents),
-                "reader_alive": w._thread.is_alive() if w._thread is not None else None,
-                "queue_left": len(w._queue.items),
+                "reader_alive": any(t.is_alive() for t in LW_THREADS),
             }
 
         return [("M", main)], observe
